@@ -206,6 +206,13 @@ func runC15(c *Ctx, idx int, o *Obs) {
 				o.Check(ok && v == 0, "insert_not_identical", fmt.Sprintf("%s sits at distance %v from its model %s", nm, v, tp), inp+" => "+Trunc(t.Newick(), 1500))
 			}
 			o.Nontrivial = len(tips) >= 3
+			// the same groups (the very same slices) on a second copy of the tree: as for a file of several trees
+			t2 := mustParse(text)
+			t2.ReinitIndexes()
+			if err := t2.InsertIdenticalTips(groups); o.Check(err == nil, "insert_error", "second tree, same groups: "+fmt.Sprint(err), inp) {
+				o.Check(t2.Newick() == t.Newick(), "insert_second_tree_differs", fmt.Sprintf("the same groups applied to a second copy give %s, the first gave %s", Trunc(t2.Newick(), 700), Trunc(t.Newick(), 700)), inp)
+			}
+			o.Ev("InsertIdenticalTips_second_tree", 1)
 		}
 	case 3: // single-child nodes
 		R := mk(n, gen.Pick(r, 0, 2, 3), gen.Pick(r, 0.1, 0.3, 0.6), false)
